@@ -296,6 +296,15 @@ def analyse(output, input_tree, unres, pragma_names):
     sc = Scope()
     sc.walk(output, set(), set())
     errors = list(sc.errors)
+    # a declaration the transform added must carry a context of its own: one that reuses the
+    # context of a source identifier can capture or collide with the user's binding of that name
+    si = Scope()
+    if input_tree is not None:
+        si.walk(input_tree, set(), set())
+        for k, c in sc.decl.items():
+            # (the empty context 0 is no source identifier's: the resolver marks every one of them)
+            if 0 < k[1] < GEN and c > si.decl.get(k, 0):
+                errors.append(("added-declaration-without-fresh-context", k[0]))
     for k, c in sc.decl.items():
         if k[1] >= GEN:
             if c > 1:
